@@ -810,6 +810,18 @@ def run(ctx):
         histories.append([("move", "abcd"[k % 4], ns, ns + [50, 2 ** 17, 0, 200000][k % 4]), ("reopen",),
                           ("update", [(None, ["a"], "exon", 7)], "error", UPDATE_FORMS[k % 5]), rand_move(rf, ["a", "b", "exon_1"]),
                           ("move", "abcd"[k % 4], 10, 60)])
+    # delete of an id that has NO feature row but occurs in relations (a dangling Parent value): the relations naming it go
+    # too, so a feature stored under that id later does not inherit them
+    for ghost_first in (True, False):
+        for tail in (("reopen",), ("delete", ["b"])):
+            h = [("update", [("k1", ["ghost"], "exon", 5), ("k2", ["k1"], "exon", 6)], "error")]
+            if not ghost_first:
+                h.append(("update", [("ghost", [], "gene", 1)], "error"))
+                h.append(("delete", ["ghost"]))
+                h.append(("update", [("k3", ["ghost"], "exon", 7)], "error"))
+            h += [("delete", ["ghost"]), tail, ("update", [("ghost", [], "gene", 2)], "error"),
+                  ("update", [("k4", ["ghost"], "exon", 9)], "error")]
+            histories.append(h)
     nrand = 60 if not ctx.thorough else 800
     for _ in range(nrand):
         h = []
